@@ -81,6 +81,8 @@ def gen_script(rng, n):
                   'gate': rng.random() < 0.85, 'values': [v for v in vals if v != ''], 'rep': rng.choice(REPRS)}
             if rng.random() < 0.4:
                 op['att'] = [rng.choice(['id', 'i d', 'é', 'a"b']), rng.choice([v for v in NASTY if v != ''])]
+                if rng.random() < 0.25:
+                    op['att'][1] = 'big ' * rng.randint(900, 3000)
             if rng.random() < 0.3:
                 op['parents'] = ['%040x' % rng.randint(1, 5)]
             if rng.random() < 0.3:
@@ -204,6 +206,11 @@ class C02(Property):
             for rep in REPRS:
                 for pretty in (False, True):
                     yield {'kind': 'text', 'values': NASTY[i:i + 6], 'rep': rep, 'pretty': pretty}
+        # values around the size of libxml2's output buffer (an element may reach the output in pieces)
+        for n in ([3900, 4000, 4096, 5000, 9000] if tier == 'quick' else list(range(3800, 4300, 13)) + [8192, 20000, 70000]):
+            for rep in (REPRS if tier != 'quick' else [REPRS[n % 3]]):
+                for pretty in (False, True):
+                    yield {'kind': 'text', 'values': [('z%d ' % n) * (n // len('z%d ' % n)) + 'end'], 'rep': rep, 'pretty': pretty}
         if tier != 'quick':
             pool = list('ab \n\r\t<>&"\'\u0085é]') + ['\U0001F600']
             for _ in range(400):
